@@ -32,7 +32,7 @@ class Snap:
 
     def __init__(self, seq):
         er, self.dr = rel_events(raw_rel(seq))
-        ea, self.da = abs_events(raw_abs(seq))
+        ea, self.da = abs_events(raw_abs(seq)) if raw_abs(seq) else ([], 0)
         self.er = [Ev(e.t, e.m.copy()) for e in er]
         self.ea = [Ev(e.t, e.m.copy()) for e in ea]
 
@@ -206,10 +206,30 @@ def route_split_bars(requant):
     return r
 
 
+def route_split_bars_empty_track(ctx, shape, wmax):
+    # a silent (message-less) input track: its bars are placeholders and must not alias the caller's object
+    b, s = mk_orig(ctx, shape, wmax, "rel")
+    e = Sequence()
+    bars = Sequence.sequences_split_bars([s, e], 0, quantise_note_lengths=False)
+    return [e, s], [x.sequence for x in bars[1]] + [x.sequence for x in bars[0]], False
+
+
+def route_seq_copy_after_edit(side):
+    def r(ctx, shape, wmax):
+        b, s = mk_orig(ctx, shape, wmax, "both")
+        if side == "rel":
+            s.set_channel(2)            # edit through the relative view; the absolute object is now outdated
+        else:
+            s.quantise_note_lengths([4])  # edit through the absolute view; the relative object is now outdated
+        return [s], [s.copy()], True
+    return r
+
+
 ROUTES = {"seq_copy_rel": route_seq_copy("rel"), "seq_copy_abs": route_seq_copy("abs"), "seq_copy_both": route_seq_copy("both"),
           "bar_copy": route_bar_copy, "bar_copy_after_abs_op": route_bar_copy_after_abs_op,
           "track_copy_after_abs_op": route_track_copy_after_abs_op, "track_copy": route_track_copy, "composition_copy": route_comp_copy,
-          "split": route_split, "split_bars_requant": route_split_bars(True), "split_bars_plain": route_split_bars(False)}
+          "split": route_split, "split_bars_empty_track": route_split_bars_empty_track,
+          "seq_copy_after_rel_edit": route_seq_copy_after_edit("rel"), "seq_copy_after_abs_edit": route_seq_copy_after_edit("abs"), "split_bars_requant": route_split_bars(True), "split_bars_plain": route_split_bars(False)}
 
 
 def q_indep(route, step, side, shape, wmax):
